@@ -1458,7 +1458,45 @@ def _sc_ctor_struct_name(hw, found):
             pass
 
 
+def _sc_neighbour_default(hw, found):
+    """a field WITHOUT a declared default that cannot be built without arguments (String, Float64[:]) directly after a
+    field that HAS one, holding a value equal to the neighbour's default: to_dict() must keep it -- a field is elided
+    only against its OWN default, and from_dict cannot restore a field that has none (seeded C19-j: the default built
+    for the previous field survived the failing get_default() of the next one)"""
+    I = hw.I
+    F = I.global_lookup("scalar", "Float64")
+    I64 = I.global_lookup("scalar", "Int64")
+    Str = I.global_lookup("string", "String")
+    Field = I.global_lookup("struct", "Field")
+    AF = hw.lab.array("ArrNFloat64", [None], (0,), F)
+    A3 = hw.lab.array("Arr3Float64", [3], (0,), F)
+    cases = (
+        ("H1{unit: String = 'mm', label: String}", {"unit": I.call(Field, [Str], {"default": "mm"}), "label": Str}, {"unit": "mm", "label": "mm"}, "label", "mm"),
+        ("H2{k: Int64, table: Float64[3], samples: Float64[:]}", {"k": I64, "table": A3, "samples": AF}, {"k": 1, "samples": [0.0, 0.0, 0.0]}, "samples", [0.0, 0.0, 0.0]),
+    )
+    for label, fields, kw, fname, want in cases:
+        H = hw.mkclass(label.split("{")[0], fields)
+        try:
+            h = I.call(H, [], dict(kw, _buffer=hw.buf("A")))
+            d = I.call(I.getattr(h, "to_dict"), [], {})
+        except PyExc as e:
+            found.append(f"{label}: to_dict() raises {e.etype}: {e.msg}")
+            return
+        if not isinstance(d, dict) or fname not in d:
+            found.append(f"{label} with {fname} = {want!r} (equal to the default of the field before it): to_dict() leaves `{fname}` out ({sorted(k for k in d if k != '__class__')}), although the field has no default of its own -- from_dict cannot rebuild the object")
+            return
+        try:
+            h2 = I.call(I.getattr(H, "from_dict"), [d], {"_buffer": hw.buf("B")})
+            got = I.getattr(h2, fname)
+        except PyExc as e:
+            found.append(f"{label}: from_dict(to_dict()) raises {e.etype}: {e.msg}")
+            return
+        if isinstance(want, str) and got != want:
+            found.append(f"{label}: from_dict(to_dict()).{fname} reads {got!r}, the original {want!r}")
+
+
 SCENARIOS = {
+    "dict-neighbour-default": (_sc_neighbour_default, "hybrid_class::HybridClass.to_dict", ["C19"]),
     "field-table-reuse": (_sc_field_table, "struct::MetaStruct.__new__", ["C18", "C19"]),
     "dict-array-of-structs": (_sc_struct_array, "hybrid_class::HybridClass.to_dict", ["C19"]),
     "ref-dict-renamed": (_sc_ref_dict, "hybrid_class::HybridClass._dict_with_xo_names", ["C19"]),
